@@ -65,6 +65,12 @@ Definition attempts_amqp (t : list effect) : nat := count is_amqp t.         (* 
 Definition attempts_append (t : list effect) : nat := count is_append t.
 Definition count_200 (t : list effect) : nat := count is_200 t.
 Definition responds_200 (t : list effect) : bool := existsb is_200 t.
+(* a trace in which nothing follows a failed delivery *)
+Fixpoint stops_at_failure (t : list effect) : bool :=
+  match t with
+  | [] => true
+  | x :: r => if is_failed_sink x then (match r with [] => true | _ => false end) else stops_at_failure r
+  end.
 (* effects strictly before the first 200 response *)
 Fixpoint before_200 (t : list effect) : list effect :=
   match t with
